@@ -999,7 +999,7 @@ def case_alpha(p):
 
         x = get_code(p["gc"])
     r = dict(cls=prov(x), obs=observe(x), routes=routes_for(x), oplog=[])
-    if k == "old_moltype":
+    if k == "old_moltype" or (k == "old_alpha" and type(x).__name__ in ("Alphabet", "CharAlphabet")):
         r["enc"] = _route(lambda: enc_generic(x))
     return r
 
